@@ -27,6 +27,28 @@ theorem limit_not_before (n succ : Nat) (hs : succ < n) : limitHit (some n) succ
 theorem limit_zero_is_unlimited (succ : Nat) : limitHit (some 0) succ = false := by
   unfold limitHit; simp
 
+/-- **a pass that only produces rejected candidates is abandoned after the give-up limit unless --no-give-up**: a
+    candidate past the limit whose test was run and failed, or whose helper said anything but OK, ends the round (QUIT,
+    or a reported pass bug) — it is never just ignored.  (An OK candidate whose test *passes* but which is unchanged or
+    too large an improvement is ignored, not rejected: that branch has no give-up test — noted in DESIGN.md.) -/
+theorem giveup_abandons (cfg : Cfg) (hg : cfg.noGiveUp = false) (size : C → Nat) (cur : C) (e : EnvRes C σ) (g : Side C) (gu : Bool)
+    (ho : e.order > cfg.giveup)
+    (hrej : e.pr ≠ .ok ∨ ∃ n, n ≠ 0 ∧ e.exit = some (.code n)) :
+    (check cfg size cur e g gu).1 = .quit ∨ ∃ err, (check cfg size cur e g gu).1 = .raise err := by
+  have ho' : decide (e.order > cfg.giveup) = true := by simpa using ho
+  unfold check reportBug saveExtra
+  rcases hrej with h | ⟨n, hn, hx⟩
+  · cases hp : e.pr
+    · exact absurd hp h
+    all_goals (simp only [hg, ho']; grind)
+  · cases hp : e.pr <;> (simp only [hx, hg, ho']; grind)
+
+/-- … and with --no-give-up it is not: the same candidate is ignored (the enumeration goes on) -/
+example : (check ({ noGiveUp := true, giveup := 3 } : Cfg) (fun (c : Nat) => c) 5
+    ({ order := 9, pr := .invalid, cand := 5, st := (), exit := none } : EnvRes Nat Unit) {} false).1 = .ignore := by decide
+example : (check ({ giveup := 3 } : Cfg) (fun (c : Nat) => c) 5
+    ({ order := 9, pr := .invalid, cand := 5, st := (), exit := none } : EnvRes Nat Unit) {} false).1 = .quit := by decide
+
 /-- **a pass run accepts at most `--skip-after-n-transforms` (and at most its own `max-transforms`) changes per test
     case**: whatever the schedule, the faults and the pass, `new` + all rounds on one file append at most `n` accepted steps
     to the log, for every limit `n ≥ 1` in force (for `n = 0` see `limit_zero_is_unlimited`, finding F9) -/
